@@ -2,6 +2,7 @@ package main
 
 import (
 	"context"
+	"errors"
 	"fmt"
 	"reflect"
 
@@ -17,6 +18,110 @@ func abuseS1() (*S1, error) { return &S1{Inst{ID: 900002}}, nil }
 func abuseS2() (*S2, error) { return &S2{Inst{ID: 900003}}, nil }
 
 type unregistered struct{}
+
+// error types that are not the error interface: a pointer type (nil means success) and a struct type with a
+// value receiver (can never be nil)
+type ptrErr struct{ msg string }
+
+func (e *ptrErr) Error() string { return e.msg }
+
+type valErr struct{ msg string }
+
+func (e valErr) Error() string { return e.msg }
+
+type errT1 struct{}
+type errT2 struct{}
+type errT3 struct{}
+
+var thePtrErr = &ptrErr{"verif: scripted pointer-typed failure"}
+
+// errorTypeBattery: constructors whose last result is a concrete type implementing error
+func errorTypeBattery() {
+	wraps := func(err error) error {
+		if err != nil && !errors.Is(err, thePtrErr) {
+			return fmt.Errorf("lost cause: %w", err)
+		}
+		return err
+	}
+	// pointer error type, non-nil: the failure is reported and wraps the constructor's own error; a retry runs again
+	{
+		calls := 0
+		c := godi.NewCollection()
+		c.AddScoped(func() (*errT1, *ptrErr) {
+			calls++
+			if calls == 1 {
+				return nil, thePtrErr
+			}
+			return &errT1{}, nil
+		})
+		p, err := c.Build()
+		if err == nil {
+			s, _ := p.CreateScope(nil)
+			abuseCall("ctor_pointer_error_reported", func() error {
+				v, err := godi.Resolve[*errT1](s)
+				if err == nil {
+					return nil
+				}
+				if v != nil {
+					return fmt.Errorf("value returned with an error")
+				}
+				if !errors.Is(err, thePtrErr) {
+					return fmt.Errorf("lost cause: %v", err)
+				}
+				return err
+			})
+			abuseCall("ctor_pointer_error_retry", func() error {
+				v, err := godi.Resolve[*errT1](s)
+				if err == nil && (v == nil || calls != 2) {
+					return fmt.Errorf("retry did not run the constructor again (calls=%d)", calls)
+				}
+				return err
+			})
+			p.Close()
+		}
+	}
+	// pointer error type as a singleton: Build fails and wraps it
+	{
+		c := godi.NewCollection()
+		c.AddSingleton(func() (*errT2, *ptrErr) { return nil, thePtrErr })
+		abuseCall("ctor_pointer_error_build", func() error {
+			p, err := c.Build()
+			if err == nil {
+				p.Close()
+			}
+			return wraps(err)
+		})
+	}
+	// struct error type (never nil): no panic anywhere; whatever the verdict of the registration, nothing escapes
+	{
+		c := godi.NewCollection()
+		var addErr error
+		abuseCall("ctor_struct_error_add", func() error {
+			addErr = c.AddScoped(func() (*errT3, valErr) { return &errT3{}, valErr{"verif: value-typed failure"} })
+			return nil
+		})
+		if addErr == nil {
+			var p godi.Provider
+			abuseCall("ctor_struct_error_build", func() error {
+				var err error
+				p, err = c.Build()
+				_ = err
+				return nil
+			})
+			if p != nil {
+				abuseCall("ctor_struct_error_resolve", func() error {
+					s, err := p.CreateScope(nil)
+					if err != nil {
+						return nil
+					}
+					godi.Resolve[*errT3](s)
+					return nil
+				})
+				p.Close()
+			}
+		}
+	}
+}
 
 func abuseCall(name string, f func() error) {
 	ev := M{"ev": "abuse", "th": "main", "call": name, "err": []string{}, "panic": false}
@@ -35,6 +140,7 @@ func abuseCall(name string, f func() error) {
 func doAbuse() {
 	R.quiet = true
 	defer func() { R.quiet = false }()
+	errorTypeBattery()
 	tS0, tS1, tS2 := reflect.TypeOf((*S0)(nil)), reflect.TypeOf((*S1)(nil)), reflect.TypeOf((*S2)(nil))
 	tU := reflect.TypeOf((*unregistered)(nil))
 	c := godi.NewCollection()
